@@ -1,20 +1,21 @@
-\* variant (not the code): the per-client quota mutexes are created on demand and the table entry is deleted on
-\* unlock.  Two requests are still serialised; with three, a waiter takes over the old mutex while a late arrival
-\* creates a fresh one.
-\*   tlc -config Limits_show_lockdrop.cfg Limits.tla   (expected: Invariant NoOvershoot is violated, n = 3, limit = 2, slack = 2:
-\*   Call(1), Call(2) [waits], Count(1), Put(1), Index(1) [returns; 2 gets the old mutex], ... Call(3) [fresh mutex] ...)
+\* variant: the per-client quota mutexes are created on demand and the table entry is deleted on unlock. Two requests
+\* are still serialised; with three, a waiter takes over the old mutex while a late arrival creates a fresh one.
+\*   tlc -config Limits_show_lockdrop.cfg Limits.tla   (expected: Invariant NoOvershoot is violated, n = 3, limit = 2,
+\*   slack = 2: Call(1), Call(2) [waits], Count(1), Put(1), Index(1) [returns; 2 gets the old mutex], Call(3) [fresh mutex] ...)
 CONSTANTS
   Kinds = {"codequota", "mapquota"}
   NS = {2, 3, 4}
   Lims = {0, 1, 2}
   NodeCounts = {1}
-  LockKeys = {"owner"}
   Variants = {"lockdrop"}
+  Shape = "free"
   MaxReRel = 2
   Slacks = {1, 2}
+  Listers = 1
   FixedKinds = {"conncap", "maplimit", "maplive", "codequota", "mapquota"}
   WithRelease = TRUE
   Emit = FALSE
+  EmitMaxN = 4
   EmitAll = FALSE
 INIT Init
 NEXT Next
